@@ -667,6 +667,12 @@ console.log('live ' + live.size);
         rep.oracle_fail("(c16 probe js-runtime-views)", "the JS runtime's buffer helpers throw", json!({"stderr": err.lines().take(6).collect::<Vec<_>>()}));
         return;
     }
+    // the model of `str8` (JsStr.lean; Props/C16 proves its length is the encoder's and its bytes are a `str`)
+    let mlines: Vec<String> = strs.iter().map(|u| format!("(str8 {})", u.iter().map(|x| x.to_string()).collect::<Vec<_>>().join(" "))).collect();
+    let model: Vec<String> = match crate::model::run_model("C16", &mlines) {
+        Ok(m) => m,
+        Err(e) => { rep.disagree("js-str8", "model-driver", "", &e); vec![] }
+    };
     let hexs = |b: &[u8]| b.iter().map(|x| format!("{x:02x}")).collect::<String>();
     let unhex = |s: &str| (0..s.len() / 2).map(|i| u8::from_str_radix(&s[2 * i..2 * i + 2], 16).unwrap_or(0)).collect::<Vec<u8>>();
     let mut seen = 0;
@@ -680,6 +686,13 @@ console.log('live ' + live.size);
                 seen += 1;
                 rep.count("probe:js-runtime-views");
                 let got = unhex(f.get(3).unwrap_or(&""));
+                if let Some(m) = model.get(i) {
+                    rep.count("js-str8-model-tie");
+                    let real = format!("{} {}", f[2], got.iter().map(|b| b.to_string()).collect::<Vec<_>>().join(" "));
+                    if real.trim_end() != m.trim_end() {
+                        rep.disagree(&mlines[i], "js-str8", real.trim_end(), m.trim_end());
+                    }
+                }
                 if f[2] != want.len().to_string() || got != want {
                     rep.oracle_fail(&case, "the UTF-8 view the JS runtime hands to Rust does not cover exactly the string's bytes", json!({"size": f[2], "bytes": hexs(&got), "expected_size": want.len(), "expected_bytes": hexs(&want)}));
                 } else if !real_is_str(&got) {
